@@ -20,17 +20,17 @@ import (
 var bigValue = strings.Repeat("\x00", 5000)
 
 var fieldAlphabet = []F{
-	{Name: ":method", Value: "GET"},                                      // static full match
-	{Name: ":path", Value: "/x"},                                         // static name match
-	{Name: "a", Value: "b"},                                              // new name (34 octets of table)
-	{Name: "a", Value: "c"},                                              // name already in the dynamic table, other value
-	{Name: "a", Value: "b", Sensitive: true},                             // sensitive twin of an indexable field
-	{Name: "e", Value: ""},                                               // empty value
-	{Name: "bin", Value: "\x00\xff"},                                     // octets 0x00 / 0xff
-	{Name: "long-name-0123456789", Value: "value-0123456789abcdef"},      // 74 octets: larger than a 68-octet table
-	{Name: "vv", Value: "vv"},                                            // name = value
-	{Name: "big", Value: bigValue},                                       // larger than any table
-	{Name: ":method", Value: "GET", Sensitive: true},                     // sensitive twin of a static entry
+	{Name: ":method", Value: "GET"},                                 // static full match
+	{Name: ":path", Value: "/x"},                                    // static name match
+	{Name: "a", Value: "b"},                                         // new name (34 octets of table)
+	{Name: "a", Value: "c"},                                         // name already in the dynamic table, other value
+	{Name: "a", Value: "b", Sensitive: true},                        // sensitive twin of an indexable field
+	{Name: "e", Value: ""},                                          // empty value
+	{Name: "bin", Value: "\x00\xff"},                                // octets 0x00 / 0xff
+	{Name: "long-name-0123456789", Value: "value-0123456789abcdef"}, // 74 octets: larger than a 68-octet table
+	{Name: "vv", Value: "vv"},                                       // name = value
+	{Name: "big", Value: bigValue},                                  // larger than any table
+	{Name: ":method", Value: "GET", Sensitive: true},                // sensitive twin of a static entry
 }
 
 // ---- table-size change schedule between two blocks ----
@@ -294,7 +294,7 @@ func partRoundTrip(h *harness) {
 		maxFields int
 		depth     int
 		gaps      []gap
-		fullFrag  int // blocks up to this many octets get EVERY cut set at the inner levels
+		fullFrag  int  // blocks up to this many octets get EVERY cut set at the inner levels
 		lastFrag  bool // fragment closure (single cuts + octet-by-octet) also at the last level
 	}
 	var cfgs []cfg
@@ -347,6 +347,7 @@ func partRoundTrip(h *harness) {
 					break
 				}
 				nStatesExpanded++
+				ev.Journal("P1 %s depth %d, expanding the state after history %v", c.name, depth, n.path)
 				for gi, g := range c.gaps {
 					for bi, blk := range blocks {
 						tIndex++
